@@ -9,3 +9,7 @@ import Rpki.Props.C05
 #print axioms Rpki.Props.C05.time_roundtrip
 #print axioms Rpki.Props.C05.serial_roundtrip
 #print axioms Rpki.Props.C05.signed_attrs_roundtrip
+#print axioms Rpki.Props.C05.roa_content_roundtrip
+#print axioms Rpki.Props.C05.roa_decoded_iterates
+#print axioms Rpki.Props.C05.aspa_content_roundtrip
+#print axioms Rpki.Props.C05.aspa_decoded_iterates
